@@ -200,6 +200,61 @@ def replay_gto(order, spec):
     return replay
 
 
+def unit_gto_homogeneity(order):
+    """Uniform scaling (C03): under n -> n_lambda every exponent scales as lambda^2, and the interpolation coefficient of every version-j kernel must scale as
+    lambda^-3, i.e. p(t a_g, t alpha) = t^(-3/2) p(a_g, alpha) — also for the spec without a documented closed form (se_erf_rinv, declared scaling power 0)."""
+    def run(ctx):
+        fn = "cider_coefs_gto_" + order
+        fq = FQ(fn)
+        defs = c_defines()
+        pname = "p_ga" if order == "gq" else "p_ag"
+        t = tm.var("tscale")
+        for spec, dn in DEFINE_OF_SPEC.items():
+            try:
+                s, args, hy = run_coefs(fn, defs[dn])
+            except CUnsupported as e:
+                ctx.undecided("%s[%s] summarised" % (fn, spec), str(e), fq)
+                continue
+            ev, val = final_writes(s, pname)
+            if ev is None:
+                ctx.holds("%s[%s] writes p" % (fn, spec), False, "", fq)
+                continue
+            gv, av = loop_var_by_bound(ev, args["ngrids"]), loop_var_by_bound(ev, args["nalpha"])
+            if gv is None or av is None:
+                ctx.undecided("%s[%s] loop structure" % (fn, spec), "no loop over [0, ngrids) x [0, nalpha) around the store", fq)
+                continue
+            aG, al = rd("exp_g", gv), rd("alphas", av)
+            H = hy + list(ev.guards) + [tm.mk_lt(tm.ZERO, aG), tm.mk_lt(tm.ZERO, al), tm.mk_lt(tm.ZERO, t)] + ([tm.mk_lt(tm.ZERO, rd("extra_args", 0))] if spec == "se_erf_rinv" else [])
+            scaled = tm.substitute(tm.lift(val), {aG: t * aG, al: t * al})
+            ctx.equal("%s[%s] p(t a, t alpha) = t^(-3/2) p(a, alpha)  (declared uniform-scaling power of the feature)" % (fn, spec), H, scaled, t ** Q(-3, 2) * tm.lift(val), fq,
+                      replay=replay_gto_homogeneity(order, spec))
+        ctx.canary("%s homogeneity canary" % fn, H, scaled, t ** Q(-1, 2) * tm.lift(val))
+    return run
+
+
+def replay_gto_homogeneity(order, spec):
+    def replay(wit):
+        import ctypes
+        from pyvc import native
+        lib = ctypes.CDLL(native.build_libs() + "/libmcider.so")
+        rng = np.random.RandomState(1)
+        ng, na = 4, 3
+        a, al = rng.rand(ng) + 0.3, rng.rand(na) + 0.2
+        fid = c_defines()[DEFINE_OF_SPEC[spec]]
+        shape = (ng, na) if order == "gq" else (na, ng)
+
+        def call(av, alv):
+            p, dp = np.zeros(shape), np.zeros(shape)
+            ex = np.array([0.7])
+            getattr(lib, "cider_coefs_gto_" + order)(p.ctypes.data_as(ctypes.c_void_p), dp.ctypes.data_as(ctypes.c_void_p), np.ascontiguousarray(av).ctypes.data_as(ctypes.c_void_p),
+                                                    np.ascontiguousarray(alv).ctypes.data_as(ctypes.c_void_p), ctypes.c_int(ng), ctypes.c_int(na), ctypes.c_int(fid), ex.ctypes.data_as(ctypes.c_void_p))
+            return p
+        tt = 2.7
+        dev = float(np.max(np.abs(call(tt * a, tt * al) / (tt ** -1.5 * call(a, al)) - 1)))
+        return {"reproduced": bool(dev > 1e-10), "max_relative_deviation_from_degree_minus_3_2": dev, "t": tt}
+    return replay
+
+
 def unit_other_coefs(ctx):
     fq = FQ("cider_coefs_vk1_gq", "cider_coefs_vk1_qg", "cider_ind_etb", "cider_ind_zexp", "cider_ind_clip", "cider_coefs_spline_gq", "cider_coefs_spline_qg")
     # vk1
@@ -525,7 +580,7 @@ def replay_lp1_forward(fwd):
 
 def units():
     from contracts import c05
-    u = [("ids", unit_ids), ("gto/gq", unit_gto("gq")), ("gto/qg", unit_gto("qg")), ("other-coefs", unit_other_coefs), ("spline-setup", unit_spline_setup), ("sdmx-l1-rows", unit_sdmx_l1_rows)]
+    u = [("ids", unit_ids), ("gto/gq", unit_gto("gq")), ("gto/qg", unit_gto("qg")), ("gto-scaling/gq", unit_gto_homogeneity("gq")), ("gto-scaling/qg", unit_gto_homogeneity("qg")), ("other-coefs", unit_other_coefs), ("spline-setup", unit_spline_setup), ("sdmx-l1-rows", unit_sdmx_l1_rows)]
     for fwd, bwd, tabs in c05.INPLACE:
         u.append(("lp1/%s" % fwd, c05.unit_inplace(fwd, bwd, tabs)))
         u.append(("lp1-forward/%s" % fwd, unit_lp1_forward(fwd)))
